@@ -201,8 +201,9 @@ class Engine:
             self.last_model = m
             self.n_fallback_calls += 1
             if r == 'unknown':
-                # third try: z3 again with the full budget (some queries need seconds, not the 500 ms of the first try)
-                self.solver.set('timeout', self.solver_timeout_ms)
+                # third try: z3 again with the full budget (some queries need seconds, not the 500 ms of the first try); three times the
+                # nominal budget, because wall-clock limits are the only thing a loaded machine can turn into an `unknown`
+                self.solver.set('timeout', 3 * self.solver_timeout_ms)
                 r = str(self.solver.check(*assumptions))
                 self.n_solver_calls += 1
                 if r == 'sat':
